@@ -36,7 +36,7 @@ NamesOf(g) ==
     [] g = "time" -> CTime [] g = "string" -> CString [] g = "bytes" -> CBytes [] g = "list" -> CList
     [] g = "dict" -> CDict [] g = "set" -> CSet [] g = "timeval" -> CTimeval [] g = "duration" -> CDuration
 \* a target: <<group, name, index of the receiver in Receivers(group)>>
-Targets == UNION {{<<g, n, r>> : n \in NamesOf(g), r \in 1..Len(Receivers(g))} : g \in Groups}
+Targets == UNION {UNION {{<<g, n, r>> : r \in 1..Len(RecvOf(g, n))} : n \in NamesOf(g)} : g \in Groups}
 
 (***************************************************************************)
 (* positional tuples                                                       *)
@@ -95,7 +95,7 @@ Next == ph = 0 /\ ph' = 1 /\ cs' \in Cases /\ UNCHANGED tg
 TypeOK == /\ tg \in Targets /\ ph \in {0, 1}
           /\ \A i \in 1..Len(cs.a) : cs.a[i] \in PoolIx
           /\ \A i \in 1..Len(cs.k) : cs.k[i][1] \in 1..K /\ cs.k[i][2] \in PoolIx
-Emit == ph = 1 => PrintT("C" \o ToJson(<<tg[1], tg[2], Receivers(tg[1])[tg[3]], cs.a, cs.k>>))
+Emit == ph = 1 => PrintT("C" \o ToJson(<<tg[1], tg[2], RecvOf(tg[1], tg[2])[tg[3]], cs.a, cs.k>>))
 
 \* coverage guard: what the domain declares, independently of what was printed
 Declared == Cardinality(Targets) * Cardinality(Cases)
